@@ -284,6 +284,241 @@ def run(res, tier, seed, replay_script=None):
     return cov
 
 
+# ---------------------------------------------------------------------------------------------------------------------------
+# C05, derivative modes of the walk (walkTree<3> / walkTree<4>, differentiate): theorems coq/Props/Properties_C05_treewalk.v about
+# coq/Model/TreeWalkDiff.v; tie: walkdrv `wddump` + ocaml/treewalkdiff_main.ml.  NOT called by run().
+SUB_DIFF = "C05_treewalk"
+WD_DIFF = "C05tw"
+DIFF_KINDS = ["localp", "semi-localp", "localp-zero", "localp-boundary"]
+DIFF_KEYS = {"diff-visited": "treewalk-diff-visited-differs", "diff-value": "treewalk-diff-value-differs",
+             "differentiate": "treewalk-differentiate-differs", "hypothesis": "treewalk-diff-hypothesis-fails"}
+TRUSTED_DIFF = [
+    "Coq 8.16.1 kernel (vm_compute in the Examples); axioms: none",
+    "extraction: ExtrOcamlBasic only; OCaml glue ocaml/treewalkdiff_main.ml (binary64 -> exact rational, comparison); C++ driver harness/walkdrv.cpp "
+    "command wddump (white-box, read-only: points/needed, surpluses, private walkTree<4>; public GridLocalPolynomial::differentiate)",
+    "modelled: diffBasisSupported (OR of the per-direction flags, product-rule accumulation), walkTree modes 3/4 on the forest of Model/TreeWalk.v; "
+    "binary64 rounding is not modelled (values compared within 1e-10; probes within 1e-10 of a support threshold skipped; values at kinks not compared)",
+]
+
+
+def gen_diff_case(r, cid, tier):
+    d = r.choice([1, 2, 2, 3, 3, 4])
+    rule = r.choice(DIFF_KINDS)
+    order = r.choice([2, 3, -1, 4]) if rule == "semi-localp" else r.choice([1, 1, 2, 3, -1, 4])
+    cap = {1: 6, 2: 4, 3: 3, 4: 2}[d]
+    if rule == "localp-zero":
+        cap = {1: 5, 2: 3, 3: 2, 4: 2}[d]
+    depth = r.randint(1, cap)
+    outs = r.choice([1, 2, 2, 3, 3, 5])
+    lines = ["case " + cid, "make localp g %d %d %d %d %s" % (d, outs, depth, order, rule)]
+    obs = lambda: "wddump g %d %d %d" % (r.randint(3, 6), r.randint(1, 10 ** 6), 250 if tier == "quick" else 600)
+    if r.random() < 0.15:
+        lines.append(obs())                       # nothing loaded: mode 4 on the tree of the needed set
+    lines += ["load g " + r.choice(FNS), obs()]
+    for _ in range(r.randint(0, 2)):
+        k = r.random()
+        if k < 0.4:
+            lines.append("refsurp g %s %s %d" % (vlib.hexf(r.choice([1e-4, 1e-3, 1e-2, 5e-2])), r.choice(CRITS), r.choice([-1] + list(range(outs)))))
+            lines += ["load g " + r.choice(FNS), obs()]
+        elif k < 0.85:
+            if r.random() < 0.5:
+                lines.append("remtol g %s %d" % (vlib.hexf(r.choice([1e-3, 1e-2, 5e-2, 2e-1])), r.choice([-1] + list(range(outs)))))
+            else:
+                lines.append("remcount g %d %d" % (r.randint(2, 40), r.choice([-1] + list(range(outs)))))
+            lines.append(obs())
+        else:
+            lines += ["setcoef g " + r.choice(FNS), obs()]
+    return lines
+
+
+def diff_matrix_cases():
+    out = []
+    i = 0
+    for rule in DIFF_KINDS:
+        for d in (1, 2, 3):
+            o = 2 if rule == "semi-localp" else {1: 1, 2: 3, 3: -1}[d]
+            depth = {1: 4, 2: 3, 3: 2}[d]
+            cid = "dmx%d" % i
+            i += 1
+            out.append(["case " + cid, "make localp g %d 3 %d %d %s" % (d, depth, o, rule), "wddump g 3 %d" % (11 + i), "load g peak", "wddump g 4 %d" % (23 + i),
+                        "remcount g %d -1" % {1: 9, 2: 15, 3: 12}[d], "wddump g 4 %d" % (37 + i)])
+    return out
+
+
+def run_diff(res, tier, seed, replay_script=None):
+    t0 = time.time()
+    cov = {}
+    res.coverage["treewalk_diff"] = cov
+    props = vlib.coq_props(SUB_DIFF)
+    bad_axioms = {k: v for k, v in props["assumptions"].items() if not v.startswith("Closed under the global context")}
+    cov.update({"props_file": "coq/Props/Properties_C05_treewalk.v", "obligations": props["obligations"], "discharged": props["discharged"],
+                "theorems": props["theorems"], "print_assumptions": props["assumptions"], "trusted_base": TRUSTED_DIFF})
+    proof_broken = (not props["ok"]) or bool(bad_axioms) or len(props["assumptions"]) != props["obligations"]
+    ok_ext, elog = vlib.coq_make(["Extract/ExtractTreeWalkDiff.vo"])
+    runner = vlib.ocaml_runner("treewalkdiff") if ok_ext else None
+    drv, derr = vlib.try_build_driver("walkdrv")
+    wd = os.path.join(vlib.BUILD, "work", WD_DIFF)
+    os.makedirs(wd, exist_ok=True)
+    r = vlib.rng(seed, SUB_DIFF)
+    nv0 = len(res.violations)
+    scripts = {}
+    if replay_script:
+        cid = replay_script[0].split()[1] if replay_script[0].startswith("case ") else "replay"
+        scripts[cid] = list(replay_script) if replay_script[0].startswith("case ") else ["case replay"] + list(replay_script)
+    else:
+        for ls in diff_matrix_cases():
+            scripts[ls[0].split()[1]] = ls
+        for i in range({"quick": 150, "thorough": 1500}[tier] * (2 if proof_broken else 1)):
+            cid = "d%d" % i
+            scripts[cid] = gen_diff_case(r, cid, tier)
+    lines = [l for ls in scripts.values() for l in ls]
+    stats = {"crashes": 0, "exceptions": 0}
+    totals, mism = {}, []
+    if drv is None:
+        res.violation("treewalk-diff-correspondence", "white-box driver walkdrv no longer compiles/links against the source: " + derr[-600:],
+                      {"kind": "correspondence-break", "correspondence": "walkdrv wddump (walkTree<4>, differentiate)"}, no_input=True)
+    else:
+        sp = os.path.join(wd, "walkd.txt")
+        with open(sp, "w") as fh:
+            fh.write("\n".join(lines) + "\n")
+        rc, so, se = vlib.run([drv, sp, wd, "30"], timeout=2400)
+        with open(os.path.join(wd, "walkd.out"), "w") as fh:
+            fh.write(so)
+        if rc != 0:
+            res.violation("treewalk-diff-driver-crash", "walkdrv exited with %d: %s" % (rc, se[-400:]), {"kind": "impl-counterexample", "driver": "walkdrv", "script": lines[-40:]})
+        cid, cmd, emptied = None, "", False
+        seen_exc = set()
+        for line in so.split("\n"):
+            if line.startswith("case "):
+                cid, emptied = line[5:].strip(), False
+            elif line.startswith("c "):
+                cmd = line[2:]
+            elif line.startswith("o dskip"):
+                stats["too_large"] = stats.get("too_large", 0) + 1
+            elif line.startswith("x "):
+                kind = line.split(None, 2)[1]
+                if emptied:
+                    continue
+                if kind == "driver" and "needs a local polynomial grid" in line:
+                    emptied = True
+                    stats["emptied"] = stats.get("emptied", 0) + 1
+                    continue
+                if kind == "hang" or kind.startswith("crash") or kind.startswith("other") or (kind == "runtime_error") or (kind == "driver" and "wddump" in cmd):
+                    stats["crashes"] += 1
+                    key = "treewalk-diff-%s:%s" % ("no-return" if kind == "hang" else ("crash" if kind.startswith("crash") else "unexpected-exception"), cmd.split()[0] if cmd else "?")
+                    if key not in seen_exc:
+                        seen_exc.add(key)
+                        res.violation(key, "%s -> %s [case %s]" % (cmd, line, cid), {"kind": "impl-counterexample", "driver": "walkdrv", "script": scripts.get(cid, [])})
+                else:
+                    stats["exceptions"] += 1
+        if runner:
+            import concurrent.futures
+            blocks, cur = [], []
+            for line in so.split("\n"):
+                if line.startswith("case ") and cur:
+                    blocks.append(cur)
+                    cur = []
+                cur.append(line)
+            if cur:
+                blocks.append(cur)
+            nproc = max(1, min(vlib.NCPU, 16, len(blocks)))
+            files = []
+            for j in range(nproc):
+                fn = os.path.join(wd, "walkd.part%d.out" % j)
+                with open(fn, "w") as fh:
+                    for b in blocks[j::nproc]:
+                        fh.write("\n".join(b) + "\n")
+                files.append(fn)
+            with concurrent.futures.ThreadPoolExecutor(max_workers=nproc) as ex:
+                results = list(ex.map(lambda fn: vlib.run([runner, fn], timeout=2400), files))
+            rc3 = max([x[0] for x in results] + [0])
+            mo, me = "".join(x[1] for x in results), "".join(x[2] for x in results)
+            with open(os.path.join(wd, "walkd.model.out"), "w") as fh:
+                fh.write(mo)
+            for line in mo.split("\n"):
+                if line.startswith("MISMATCH") or line.startswith("EXHAUSTED"):
+                    mism.append(line)
+                elif line.startswith("totals "):
+                    for kv in line.split()[1:]:
+                        if "=" in kv and not kv.startswith("by_"):
+                            k, v = kv.split("=", 1)
+                            if re.fullmatch(r"-?\d+", v):
+                                totals[k] = totals.get(k, 0) + int(v)
+                    m = re.search(r"by_rule=([\d ]+?) by_dim=([\d ]+)$", line)
+                    if m:
+                        for k, v in zip(["pwc", "localp", "semilocalp", "localp0", "localpb"], map(int, m.group(1).split())):
+                            totals.setdefault("by_rule", {})[k] = totals.get("by_rule", {}).get(k, 0) + v
+                        for i, v in enumerate(m.group(2).split()):
+                            if int(v):
+                                totals.setdefault("by_dim", {})[str(i)] = totals.get("by_dim", {}).get(str(i), 0) + int(v)
+            if rc3 != 0 or not totals:
+                mism.append("MISMATCH -#0 runner-failed " + (me or mo)[-300:])
+    seen = set()
+    for mline in mism:
+        t = mline.split(None, 3)
+        tag = t[1] if len(t) > 1 else "-#0"
+        cid = tag.split("#")[0]
+        what = "fuel" if mline.startswith("EXHAUSTED") else (t[2] if len(t) > 2 else "runner-failed")
+        key = DIFF_KEYS.get(what)
+        if key is None:
+            if "correspondence" not in seen:
+                seen.add("correspondence")
+                res.violation("treewalk-diff-correspondence", "derivative tree-walk model could not be evaluated: " + mline[:300],
+                              {"kind": "correspondence-break", "correspondence": "TreeWalkDiff model vs walkdrv wddump", "examples": mism[:5], "script": scripts.get(cid, [])}, no_input=True)
+            continue
+        if key in seen:
+            continue
+        seen.add(key)
+        res.violation(key, "%s [case %s, observation %s]" % (mline[:500], cid, tag),
+                      {"kind": "impl-counterexample", "driver": "walkdrv", "script": scripts.get(cid, []), "observation": tag, "detail": mline[:4000]})
+    if proof_broken and len(res.violations) == nv0:
+        res.violation("treewalk-diff-proof", "proof obligations of Properties_C05_treewalk.v no longer check (%d/%d) %s" %
+                      (props["discharged"], props["obligations"], list(bad_axioms)[:2]),
+                      {"kind": "proof-break", "theorems": props["theorems"], "log": props["log"][-3000:]}, no_input=True)
+    if not ok_ext and len(res.violations) == nv0:
+        res.violation("treewalk-diff-extraction", "extraction of the derivative tree-walk model failed", {"kind": "proof-break", "log": elog[-2000:]}, no_input=True)
+    cov.update({
+        "cases": len(scripts), "forests": totals.get("forests", 0), "probe_points_compared": totals.get("probes", 0),
+        "probe_points_skipped_borderline": totals.get("skipped_borderline", 0), "probe_points_on_a_kink_values_not_compared": totals.get("kink_probes", 0),
+        "visited_points_compared_exactly": totals.get("visited", 0), "visits_beyond_the_value_walk": totals.get("extra_visits", 0),
+        "gradient_values_compared": totals.get("values", 0), "gradient_values_nonzero": totals.get("nonzero_values", 0),
+        "differentiate_entries_compared": totals.get("differentiates", 0), "probes_where_the_walk_pruned": totals.get("probes_with_pruning", 0),
+        "disagreements": len(mism), "by_rule": totals.get("by_rule", {}), "by_dimension": totals.get("by_dim", {}),
+        "histories_ended_by_a_removal_of_all_points": stats.get("emptied", 0), "observations_skipped_too_large": stats.get("too_large", 0),
+        "crashes": stats["crashes"], "rejected_steps": stats["exceptions"], "value_tolerance": 1e-10, "wall_s": round(time.time() - t0, 1),
+        "rule": "case = makeLocalPolynomialGrid (4 binary rules, orders 1,2,3,4,-1, dims 1-4, 1-5 outputs); load; 0-2 of: surplus refinement + load, "
+                "removePointsByHierarchicalCoefficient (holes, several roots), setHierarchicalCoefficients; after every step ~20 probe points (as in wdump) with "
+                "walkTree<4> and differentiate(); plus a fixed rule x dimension matrix with a removal",
+        "sample": (list(scripts.values())[len(scripts) // 2] if scripts else []),
+    })
+    return cov
+
+
+def main_diff(argv):
+    """stand-alone: python3 props/c04treewalk.py diff quick 1  -> exit 0/1, nothing written under evidence/"""
+    tier = argv[0] if argv and argv[0] in ("quick", "thorough") else "quick"
+    seed = int(argv[1]) if len(argv) > 1 else int(os.environ.get("VERIF_SEED", "1") or 1)
+    res = vlib.Result("C05", tier, seed, "proof")
+    try:
+        run_diff(res, tier, seed)
+    except vlib.BuildError as e:
+        res.violation("treewalk-diff-build", "build failed: " + str(e)[:1500], {"kind": "build-failure", "detail": str(e)}, no_input=True)
+    cov = res.coverage.get("treewalk_diff", {})
+    for key, text in res.known_hit:
+        print("KNOWN-FINDING: property=C05 key=%s %s" % (key, text))
+    seen = set()
+    for v in res.violations:
+        if v["key"] in seen:
+            continue
+        seen.add(v["key"])
+        print("DETAIL property=C05 key=%s %s" % (v["key"], v["what"][:400].replace("\n", " ")))
+        print("VIOLATION property=C05 replay=%s%s" % (v["replay"], " no-failing-input-found" if v["no_input"] else ""))
+    short = {k: v for k, v in cov.items() if k not in ("rule", "sample", "trusted_base", "print_assumptions", "theorems")}
+    print("SUMMARY " + json.dumps(short, default=str))
+    sys.stdout.flush()
+    return 1 if res.violations else 0
+
+
 def finish_standalone(res):
     """print the outcome like Result.finish() but write the evidence under _build/work/C04w/ (never evidence/C04.json)"""
     wd = os.path.join(vlib.BUILD, "work", WD)
@@ -315,6 +550,8 @@ def replay(path):
 
 
 def main():
+    if len(sys.argv) >= 2 and sys.argv[1] == "diff":
+        return main_diff(sys.argv[2:])
     if len(sys.argv) >= 3 and sys.argv[1] == "--replay":
         return replay(sys.argv[2])
     tier = sys.argv[1] if len(sys.argv) > 1 and sys.argv[1] in ("quick", "thorough") else "quick"
